@@ -328,3 +328,45 @@ func c16OutboundMulti(r *mc.Report, c c16Case, w *mwire, nodeP **mnode, peers *[
 	}
 	return fmt.Sprintf("round1=%d(holding %d) round2=%d free=%d/%d round3=%d", n1, hold1, n2, free, c.Limit, n3)
 }
+
+// ---- outbound: more offers queued than there are workers when the node stops ----
+//
+// Limit 600 (far above the 50 offer workers). 550 offers to a peer that never answers are queued,
+// each with a slot from the real controller; the workers are busy with the first ones, the rest
+// is still in the queue when the node is stopped. Every slot must come back: those of the queued
+// offers at once, those of the offers under way when their requests time out.
+
+func c16OutDrainCases() []c16Case {
+	return []c16Case{{Dir: "out-drain", Ver: 1, Limit: 600, StopAt: -1}}
+}
+
+func c16OutboundDrain(r *mc.Report, c c16Case, w *mwire, nodeP **mnode, decide func(int, mdgram) pumpAction, viol func(string, string, string)) string {
+	node := newMNode(w, mnodeOpts{keyIdx: 11, versions: []uint8{0, 1}, utpLimit: c.Limit, queueCap: 50})
+	*nodeP = node
+	target := signedNode(detKey(13), 1, []byte{10, 0, 0, 99}, 9099, versEntry{0, 1}) // nobody listens there
+	k, v := []byte("c16-out-drain"), bytes.Repeat([]byte{3}, 100)
+	node.P.Put(k, node.P.ToContentId(k), v)
+	req := &portalwire.OfferRequest{Kind: portalwire.TransientOfferRequestKind, Request: &portalwire.TransientOfferRequest{Contents: []*portalwire.ContentEntry{{ContentKey: k, Content: v}}}}
+	queued := 0
+	for i := 0; i < 550; i++ {
+		permit, ok := node.P.Utp.GetOutboundPermit()
+		if !ok {
+			break
+		}
+		if !node.P.VerifEnqueueOffer(target, req, permit) {
+			permit.Release()
+			break
+		}
+		queued++
+	}
+	w.pump(func() bool { return false }, 100*time.Millisecond, decide) // the workers pick up what they can
+	left := node.P.VerifOfferQueueLen()
+	_, freeBefore := node.P.VerifPermits()
+	node.Stop()
+	w.pump(func() bool { return false }, 5*time.Minute, decide)
+	_, free := node.P.VerifPermits()
+	if free != c.Limit {
+		viol("all-slots-available-after-activity-ceased", "outbound-drain:stop-with-more-queued-offers-than-workers", fmt.Sprintf("limit %d: %d offers were queued (%d still in the queue, %d slots free) when the node stopped; 5 virtual minutes later %d slots are free", c.Limit, queued, left, freeBefore, free))
+	}
+	return fmt.Sprintf("queued=%d left=%d free=%d/%d", queued, left, free, c.Limit)
+}
